@@ -94,3 +94,31 @@ Definition predict_block (cbs : bool) (perkey : list N) : N :=
   | Cont _ => 0%N
   | Stop c => c
   end.
+
+(* ---- whole files of several server blocks (sites), the same directive line possibly in effect in more than
+   one of them (written twice, or through a snippet imported by several sites) ----
+   The harness loads every server block as a file of its own (class 0 = accepted, anything else = rejected) and
+   hands the classes over; the model predicts what the whole file does in either mode: the blocks are set up in
+   order, a block does what it does alone, the first rejected block ends the load.  (With classes 0/1 it does not
+   matter that executeDirectives runs directive-outermost: some rejected block ends the load with class 1.) *)
+Definition oracle_setup_site (persite : list N) (d : bytes) (i j : nat) (k : bytes) (toks : list N) (s : N)
+  : outcome N :=
+  match nth_error persite i with
+  | Some 0%N => Cont s
+  | Some c => Stop c
+  | None => Stop 9%N
+  end.
+
+Definition site_block (c : N) : @block N := ([@nil N], [([100%N], [0%N])]).
+
+Definition predict_sites (cbs : bool) (persite : list N) : N :=
+  match execute (oracle_setup_site persite) oracle_callback cbs [[100%N]] (map site_block persite) 0%N with
+  | Cont _ => 0%N
+  | Stop c => c
+  end.
+
+Definition first_rejected (persite : list N) : N :=
+  match find (fun c => negb (c =? 0)%N) persite with
+  | Some c => c
+  | None => 0%N
+  end.
